@@ -38,6 +38,11 @@ def rows_for(s, rng, quick):
         rows.append(("2d", batch))
         if s.kind in ("pi4", "oqpsk") and not quick:
             rows.append(("2d", [grp(a) + grp(c) + grp(d) for a, c, d in itertools.product(range(M), repeat=3)]))
+        # odd numbers of symbols per row: per-row memory must restart at every row, whatever the parity of the row length
+        rows.append(("2d", [grp(rng.randrange(M)) + grp(rng.randrange(M)) + grp(rng.randrange(M)) for _ in range(6)]))
+        rows.append(("2d", [[rng.randrange(2) for _ in range(b * 5)] for _ in range(4)]))
+        if s.kind != "dpsk":        # a differential demodulator needs two symbols per row: rejecting a single one is its documented start-up behaviour
+            rows.append(("2d", [grp(rng.randrange(M)) for _ in range(5)]))              # one symbol per row
         rows.append(("1d", [[rng.randrange(2) for _ in range(b * 8)]]))
         rows.append(("1d", [allsym[:b * 2]]))            # a short 1-D sequence (two symbols)
         rows.append(("2d", [[rng.randrange(2) for _ in range(b * longn)] for _ in range(2)]))
